@@ -111,11 +111,19 @@ func (fx *FuncCtx) dynCall(st *State, cc *ssa.CallCommon, fnv Val, args []Val, r
 	// function-typed value of unknown identity: result havocked, no heap effect assumed (listed)
 	fx.trusted["assumed noeffect: dynamic call of function value at "+fx.posStr(pos)] = true
 	fx.nilCheck(st, fnv.s(), pos, "call of nil function")
-	if rt == nil {
-		return Val{}
+	st.callN["dyn"]++
+	site := fmt.Sprintf("dyn#%d", st.callN["dyn"])
+	var v Val
+	if rt != nil {
+		v = fx.freshVal("dyn", rt)
+		fx.assumeTyping(st, v)
 	}
-	v := fx.freshVal("dyn", rt)
-	fx.assumeTyping(st, v)
+	// ghost code may record the outcome of the k-th dynamic call of the function (`ghost after dyn#k: ... result$ ...`)
+	genv := fx.localsEnv(st, st.heap, map[string]string{})
+	if rt != nil && v.Tup == nil {
+		genv.vars["result$"] = v
+	}
+	fx.runGhost(st, "after "+site, genv, pos)
 	return v
 }
 
